@@ -345,8 +345,28 @@ func (*GzipPacked) CRC() uint32 {
 	return CrcGzipPacked
 }
 
-func (*GzipPacked) MarshalTL(e *tl.Encoder) error {
-	panic("not implemented")
+func (t *GzipPacked) MarshalTL(e *tl.Encoder) error {
+	if t.Obj == nil {
+		return errors.New("packed object can't be nil")
+	}
+
+	data, err := tl.Marshal(t.Obj)
+	if err != nil {
+		return errors.Wrap(err, "encoding packed object")
+	}
+
+	var buf bytes.Buffer
+	gz := gzip.NewWriter(&buf)
+	if _, err = gz.Write(data); err != nil {
+		return errors.Wrap(err, "compressing packed object")
+	}
+	if err = gz.Close(); err != nil {
+		return errors.Wrap(err, "compressing packed object")
+	}
+
+	e.PutUint(t.CRC())
+	e.PutMessage(buf.Bytes())
+	return e.CheckErr()
 }
 
 func (t *GzipPacked) UnmarshalTL(d *tl.Decoder) error {
